@@ -80,6 +80,13 @@ def unit_set(rnd):
     n = rnd.randint(1, 6)
     stems = rnd.sample(['a', 'b', 'web', 'db', 'net1', 'vol-x', 'img', 'p1', 'p2', 'k', 'bld', 'tpl@', 'c.d'], n)
     units = [(st, rnd.choice(TYPES)) for st in stems]
+    member_of = {}
+    if n >= 2 and rnd.random() < 0.25:
+        # a pod with members: state carried from the containers to the pod (converted last) is a frequent case, not a rare one
+        units[0] = (units[0][0], 'pod')
+        for i in range(1, rnd.randint(2, min(n, 3))):
+            units[i] = (units[i][0], 'container')
+            member_of[units[i][0]] = units[0][0] + '.pod'
     names = [st + '.' + ty for st, ty in units]
 
     FALLBACK = {'image': 'localhost/i', 'build': 'localhost/b', 'network': 'mynet', 'container': 'host', 'volume': 'named', 'pod': ''}
@@ -122,7 +129,9 @@ def unit_set(rnd):
             L.append('Image=' + rnd.choice(['localhost/i', ref('image'), ref('build')]))
             if rnd.random() < 0.3:
                 L += named('ContainerName', rnd.choice(['cn-' + st, '%p-x']))
-            if rnd.random() < 0.5:
+            if st in member_of and rnd.random() < 0.85:
+                L.append('Pod=' + member_of[st])
+            elif rnd.random() < 0.5:
                 L.append('Pod=' + rnd.choice([ref('pod'), ref('pod'), 'notapod', '', rnd.choice(names)]))
             if rnd.random() < 0.4:
                 L.append('StartWithPod=' + rnd.choice(['no', 'yes', '', 'x']))
